@@ -24,6 +24,9 @@ def value_layouts(rng, tag, final_nl=True):
         ("\n line1-%s\n line2-%s\n" % (w, w), "\n line1-%s\n line2-%s" % (w, w)),
         (" %s,\n# inner comment %s\n z-%s\n" % (w, w, w), "%s,\n z-%s" % (w, w)),
         (" %s é中\n .\n end-%s\n" % (w, w), "%s é中\n .\n end-%s" % (w, w)),
+        # character stress: not NFC-stable text, singletons, BOM / zero-width / NBSP, non-BMP
+        (" %s cafe\u0301 \u212b\n \ufeffx\u200d \U0001f600\n" % w, "%s cafe\u0301 \u212b\n \ufeffx\u200d \U0001f600" % w),
+        (" %s caf\u00e9\u00a0b\n" % w, "%s caf\u00e9\u00a0b" % w),
     ]
     if rng.random() < 0.05:          # size stress: long lines, many continuation lines
         k = rng.choice([72, 73, 255, 256, 1023, 1024, 4095, 4096, 4097, 8192])
